@@ -172,7 +172,26 @@ def run(ctx, res):
             k, b = fam[0]
             se = seeks_to_end(b)
             if se:
-                res.ok("R19.drop", ty, where(b, se[0]), "Drop seeks the shared file to SeekFrom::End(0)")
+                # on *every* path of the file arm: the only branch that may skip the seek is the test of
+                # the variant (the memory variant has nothing to restore)
+                rets = {bi for bi, blk in enumerate(b.blocks) if blk["t"]["k"] == "return" and bi in b.live_blocks()}
+                skipping = []
+                for bi, blk in enumerate(b.blocks):
+                    t = blk["t"]
+                    if t["k"] != "switch" or bi not in b.live_blocks() or not any(b.reachable_from(bi) & {x} for x in se):
+                        continue
+                    is_variant = any(st["k"] == "assign" and st["r"]["k"] == "discr" and st["p"]["l"] == (t["o"]["p"]["l"] if t["o"]["k"] != "const" else -1) and ty in (st["r"]["p"].get("ty", "") + b.locals[st["r"]["p"]["l"]]["ty"]) for st in blk["s"])
+                    if is_variant:
+                        continue
+                    for x in [tb for _v, tb in t["ts"]] + [t["else"]]:
+                        if b.blocks[x]["t"]["k"] == "unreachable":
+                            continue
+                        if b.reachable_from(x, frozenset(se)) & rets and not blk.get("cleanup"):
+                            skipping.append(bi)
+                if skipping:
+                    res.bad("R19.drop", ty, "Drop for %s restores the shared file offset only under a condition: on the other path the offset stays where the reader left it and the next append overwrites existing chunks" % ty, where(b, skipping[0]))
+                else:
+                    res.ok("R19.drop", ty, where(b, se[0]), "Drop seeks the shared file to SeekFrom::End(0) on every path of the file variant")
                 continue
             if lazy_flag is None:
                 res.bad("R19.drop", ty, "Drop for %s does not seek the file back to its end (SeekFrom::End(0))" % ty, fl(b.span))
@@ -398,12 +417,12 @@ def check_chunk_agreement(fg, res):
             if any(n.endswith("FileOrMemBuf::<T>::chunks") for n in callee_names(t)):
                 a = t["args"][1]
                 if a["k"] == "const":
-                    reader = (k, b, bi, {"<literal>"})
+                    reader = (k, b, bi, {"<literal>"}, a)
                 else:
                     m, si = size_sources(fg, k, a)
                     if si.literals and not m:
                         m = {"<literal>"}
-                    reader = (k, b, bi, m)
+                    reader = (k, b, bi, m, a)
     if writer is None:
         res.bad("R19.chunk", "init_and_shares|flush", "cannot locate the flush comparison `chunk.len() >= <batch size>` in init_and_shares")
         return
@@ -411,8 +430,13 @@ def check_chunk_agreement(fg, res):
         res.bad("R19.chunk", "gen_auth_bits|chunks", "cannot locate and_shares.chunks(<batch size>) in gen_auth_bits")
         return
     wk, wb, wbi, wop, wm, wbound = writer
-    rk, rb, rbi, rm = reader
+    rk, rb, rbi, rm, rarg = reader
     from an import plain_value_origin
+    rcalls, rcomputed = plain_value_origin(fg, rk, rarg, rb.owner)
+    if rcomputed or len(rcalls) != 1 or not list(rcalls)[0].startswith("polytune::mpc::protocol::Context"):
+        res.bad("R19.chunk", "gen_auth_bits|chunks", "the reader's chunk size is computed from the batch size (%s) instead of being the batch size the writer flushed at: the memory variant re-chunks by this size while the file variant hands back the written chunks, so the two variants produce different batches"
+                % (sorted(x.rsplit("::", 1)[-1] for x in rcalls) or "arithmetic"), where(rb, rbi))
+        return
     wcalls, wcomputed = plain_value_origin(fg, wk, wbound, wb.owner)
     if wcomputed or len([c for c in wcalls if c.startswith("polytune::mpc::protocol::Context")]) != 1 or len(wcalls) != 1:
         res.bad("R19.chunk", "init_and_shares|flush", "the writer's flush bound is computed from the batch size (%s) instead of being the batch size itself: the file variant hands the written chunks back while the memory variant re-chunks by the reader's size, so the two variants produce different batches"
